@@ -153,3 +153,9 @@ def run(ck, tier, seed):
                 'op': at.get('op') if at else None,
                 'events': evs,
             }, replay={'kind': 'c17-trace', 'events': evs})
+
+    # system level: done() observed at every scheduling point never reverts
+    from checks import pipe
+    import pipeline
+    pipe.run_e2e(ck, 'C17', tier, seed)
+    pipeline.close_pool()
